@@ -936,6 +936,13 @@ def r6(ctx):
         ctx.emit('C07-R6', ok, MOLITER, c, f'after `{src(c)[:60]}` accepted the fragment the loop over the molecules ends on every path ({sorted(ends)})' if ok else
                  f'after `{src(c)[:60]}` accepted the fragment the loop goes on to the next molecule ({sorted(ends)}): the fragment can join several molecules',
                  key=f'first-acceptor-only:{k}', what='MoleculeIterator: a fragment is added to every molecule that accepts it')
+        # ... and only there: while no molecule has accepted the fragment the search goes on to the next buffered molecule
+        rs0 = explore(loop.body, mk_atoms({src(c): False}))
+        early = [r for r in rs0 if r['kind'] in ('break', 'return')]
+        ctx.emit('C07-R6', not early, MOLITER, early[0]['stmt'] or c if early else c, 'a molecule that does not accept the fragment never ends the search over the buffered molecules' if not early else
+                 f'the search over the buffered molecules ends ({early[0]["kind"]}) although `{src(c)[:50]}` has not accepted the fragment: the molecules behind it are never offered the fragment '
+                 'and a duplicate starts a molecule of its own', key=f'every-molecule-offered:{k}', witness={'buffer': ['molecule the loop stops at', 'molecule matching the fragment'],
+                 'path': [src(t)[:60] for t in early[0].get('conds', [])][:4]} if early else None, what='MoleculeIterator: the search for a matching molecule stops early')
     # the cap: OverflowError is raised by _add_fragment (i.e. after the match was established), never by add_fragment itself before comparing
     g = ctx.fn(MOLECULE, 'Molecule.add_fragment')
     early = [r_ for r_ in walk_no_nested(g) if isinstance(r_, ast.Raise) and 'OverflowError' in src(r_)]
